@@ -333,6 +333,18 @@ def _fit_group(case, ctx, spec, n, rng, judge, control):
     ctrl_w = control(lambda: ExponentiatedWeibullDistribution().fit(ew_data, "wlsq", "quadratic"))
     judge([Fault("unknown-weight-keyword", 0)], lambda: ExponentiatedWeibullDistribution().fit(ew_data, "wlsq", "quartic"), ctrl_w)
     judge([Fault("non-iterable-weights", 0)], lambda: ExponentiatedWeibullDistribution().fit(ew_data, "lsq", 3.0), ctrl_w)
+    # the same faults on a carrier whose parameters are ALL fixed (nothing to estimate - the description is still ill-formed)
+    gcls = S.classes()["gamma"]
+    gdata = np.abs(rng.gamma(2.0, 1.5, 300)) + 0.01
+
+    def fixed_dist():
+        return gcls(f_a=2.0, f_loc=0.0, f_scale=1.5)
+
+    ctrl_fixed = control(lambda: fixed_dist().fit(gdata, "mle"))
+    judge([Fault("unknown-fit-method", 0, "all-parameters-fixed")], lambda: fixed_dist().fit(gdata, "least-squares-ish"), ctrl_fixed)
+    ctrl_fixed_m = control(lambda: GlobalHierarchicalModel([{"distribution": fixed_dist()}]).fit(gdata.reshape(-1, 1), [{"method": "mle"}]))
+    judge([Fault("unknown-fit-method", 0, "all-parameters-fixed-in-a-model")], lambda: GlobalHierarchicalModel([{"distribution": fixed_dist()}]).fit(gdata.reshape(-1, 1), [{"method": "bogus"}]), ctrl_fixed_m)
+    judge([Fault("fit-description-without-method", 0, "all-parameters-fixed-in-a-model")], lambda: GlobalHierarchicalModel([{"distribution": fixed_dist()}]).fit(gdata.reshape(-1, 1), [{"weights": None}]), ctrl_fixed_m)
     # too few intervals
     if n >= 2 and any(c is not None for c in case["structure"]):
         from virocon import NumberOfIntervalsSlicer
